@@ -342,7 +342,7 @@ class Frame:
 
 
 class Executor:
-    def __init__(self, prog, models, max_steps=20000, max_visits=64, timeout_ms=20000):
+    def __init__(self, prog, models, max_steps=20000, max_visits=64, timeout_ms=60000):
         self.prog = prog
         self.models = models
         self.solver = z3.Solver()
@@ -489,6 +489,17 @@ class Executor:
     def call(self, fname, args):
         f = self.prog.func(fname)
         self.functions_executed.add(fname)
+        if not hasattr(self, '_fstack'):
+            self._fstack = []
+        if not fname.startswith('const '):
+            self._fstack.append(fname)
+            try:
+                return self._call(f, fname, args)
+            finally:
+                self._fstack.pop()
+        return self._call(f, fname, args)
+
+    def _call(self, f, fname, args):
         fr = Frame(f)
         if len(args) != len(f.args):
             raise Unsupported(f'arity mismatch calling {fname}')
@@ -770,9 +781,23 @@ class Executor:
             return Opaque('fn:' + (mm.group(1).strip() if mm else t))
         if ('const ' + txt) in self.prog.raw:
             return self.call('const ' + txt, [])
+        m = re.search(r'::(promoted\[\d+\])$', txt)
+        if m and getattr(self, '_fstack', None):
+            # a promoted constant of the function being executed (use site and definition print the impl path differently)
+            key = 'const ' + self._fstack[-1] + '::' + m.group(1)
+            if key in self.prog.raw:
+                return self.call(key, [])
         m = re.match(r'^(-?[\d.]+(?:[eE][+-]?\d+)?|[+-]?inf|NaN)f64$', txt)
         if m:
             return F(z3.FPVal(float(m.group(1)), z3.Float64()))
+        m = re.match(r'^(?:core|std)::num::<impl (\w+)>::(MAX|MIN)$', txt) or re.match(r'^(u8|u16|u32|u64|usize|i8|i16|i32|i64|isize)::(MAX|MIN)$', txt)
+        if m and m.group(1) in INT_TYPES:
+            bits, signed = INT_TYPES[m.group(1)]
+            if m.group(2) == 'MAX':
+                v = (1 << (bits - 1)) - 1 if signed else (1 << bits) - 1
+            else:
+                v = -(1 << (bits - 1)) if signed else 0
+            return mk_int(v, m.group(1))
         # unit enum variants written as paths, e.g. std::cmp::Ordering::Less / Option::<T>::None
         m = re.match(r'^(?:[\w<>\', &\[\]()]*::)*(\w+)(?:::<.*>)?::(\w+)$', txt)
         if m:
